@@ -250,7 +250,13 @@ def wl_spelling(ctx, R, probe, rng, tz, zones):
             variant.append('DTSTART-TZID-tzids')
     if how != 'kwarg' and rng.random() < .25:
         # dtstart= is only a default for texts without DTSTART: the inline start wins over a different one passed along
-        opts['dtstart'] = rng.choice([D.datetime(2001, 1, 31, 17, 30), st + D.timedelta(days=3, minutes=7), st.replace(tzinfo=None) - D.timedelta(hours=1)])
+        decoys = [D.datetime(2001, 1, 31, 17, 30)]
+        for delta in (D.timedelta(days=3, minutes=7), D.timedelta(hours=-1)):
+            try:
+                decoys.append(st.replace(tzinfo=None) + delta if delta < D.timedelta(0) else st + delta)
+            except OverflowError:
+                pass
+        opts['dtstart'] = rng.choice(decoys)
         variant.append('inline-wins-over-dtstart=')
     prefix = 'RRULE:' if (lines or rng.random() < .5) else ''
     if prefix and rng.random() < .2:
